@@ -1,6 +1,6 @@
 (* C11 — The engine performs what the script decided. *)
 From Coq Require Import List ZArith Bool.
-From SR Require Import Base.CaseLib Base.NumOps Model.Turn Model.Sim Model.SimProtocol Proofs.SimProofs Proofs.SimDecision.
+From SR Require Import Base.CaseLib Base.NumOps Base.FloatFactsAttr Model.Turn Model.Sim Model.SimProtocol Proofs.SimProofs Proofs.SimDecision Proofs.SimDecisionTrace.
 Import ListNotations.
 
 (* for an alive character: the decision asked of the script is recorded; the action started is
@@ -52,3 +52,47 @@ Theorem C11_nonvacuous :
   | _ => false
   end = true.
 Proof. exact demo_cfg2_runs. Qed.
+
+(* ------------------------------------------------------------------------------------------ *)
+(* Run level: for every configuration, content, decision sequence and fuel                     *)
+(* ------------------------------------------------------------------------------------------ *)
+
+(* the trace of every run that ends (with a result or with an error return) is accepted by the
+   decision monitor that is evaluated on the traces of the real simulator: after the script's answer
+   (VNextAction id type evaluator) the content call of that character is a skill exactly when a
+   skill was decided and the engine did not fall back; the fallback to the default attack
+   (VDefaultAction) only follows a decided skill of the same character; the primary target handed to
+   the content belongs to the class the ability's target type asks for (allies / enemies / self,
+   per the configuration's description of the units) and has not been announced dead; the primary
+   target of an ultimate likewise *)
+Theorem C11_trace_level : forall cfg fuel s, start cfg fuel = Stop s \/ start cfg fuel = Err s ->
+  decision_ok cfg (trace s) = true.
+Proof. exact C11_trace_holds. Qed.
+Print Assumptions C11_trace_level.
+
+(* first among equals: a target chosen by LowestHP (evaluator 101) / LowestHPRatio (102) splits the
+   candidate list (the living list of the right side, in field order) into candidates before it, all
+   with a strictly larger key, and candidates after it, none with a smaller key - provided no
+   candidate's key is NaN; in particular it is a minimiser *)
+Theorem C11_lowest_is_first_among_equals : forall s src evl tt p cands,
+  evaluate s src evl tt = Some p -> candidates s src tt = Some cands ->
+  (evl = 101%Z -> (forall y, In y cands -> nn (cur_hp s y)) ->
+     lowest_first (cur_hp s) cands p /\ forall y, In y cands -> PrimFloat.ltb (cur_hp s y) (cur_hp s p) = false) /\
+  (evl = 102%Z -> (forall y, In y cands -> nn (hp_ratio s y)) ->
+     lowest_first (hp_ratio s) cands p /\ forall y, In y cands -> PrimFloat.ltb (hp_ratio s y) (hp_ratio s p) = false).
+Proof. exact C11_lowest_first_holds. Qed.
+Print Assumptions C11_lowest_is_first_among_equals.
+
+(* non-vacuity: with two enemies of equal HP LowestHP takes the first; after the second was damaged
+   LowestHP and LowestHPRatio take the second; the monitor accepts the run *)
+Theorem C11_lowest_nonvacuous :
+  match start demo_cfg11 300 with
+  | Stop s =>
+      decision_ok demo_cfg11 (trace s) &&
+      match filter (fun e => match e with VCall 0 _ _ | VNextAction _ _ _ => true | _ => false end) (trace s) with
+      | [VNextAction 1 0 101; VCall 0 1 2; VNextAction 1 0 101; VCall 0 1 3; VNextAction 1 0 102; VCall 0 1 3] => true
+      | _ => false
+      end
+  | _ => false
+  end = true.
+Proof. vm_compute. reflexivity. Qed.
